@@ -17,6 +17,18 @@ CLAIMED = {
    note=TB + "Modelled, not verified: Python dict semantics, utils.seq; random.randint for an unset server id is outside the property.",
    design="DESIGN.md section 4, C18"),
 }
+CLAIMED["C04"] = dict(
+   technique="Lean 4 proof (strong induction over payload length / buffered bytes; segmentation independence of an incremental reader) + extracted literals + differential execution of MysqlStream",
+   text="Theorems in lean/MimicProps/C04.lean: write/read round trip for every payload and packet-size limit 0<m<2^24 instantiated at the "
+        "extracted 0xFFFFFF (packet count len/M+1, consecutive sequence ids), independence of the reader from the segmentation of the "
+        "byte stream (feedAll = feed of the concatenation, incl. sequence errors), and order/loss-freedom of the write buffer for every "
+        "program of write(drain?)/drain. Tie: literals, header-read method, buffer size and sequence modulus re-extracted each run; "
+        "per-chunk comparison of the real MysqlStream over a real StreamReader with the model (real class and class recompiled from the "
+        "current source with a small packet size); real-server conversation at every 1-cut and sampled/exhaustive 2-cuts; in-memory TLS. "
+        "Partial: the TLS switch loses bytes coalesced with the SSLRequest (known finding D4b); the TLS engine itself is trusted.",
+   note=TB + "Modelled, not verified: asyncio.StreamReader.readexactly / feed_data, StreamWriter; ssl. Payloads >= 16 MiB are compared by packet (seq,len) list and independent reassembly, not byte-for-byte in Lean.",
+   design="DESIGN.md section 4, C04")
+
 REASON_PENDING = "check not built yet (work in progress; see DESIGN.md section 9)"
 
 m = {
